@@ -310,6 +310,7 @@ def check(prop, tier, seed):
         input_distribution=meta.get("stats", {}),
         extractor=dict(ok=eok, failures=efails),
         exhaustive=bool(meta.get("exhaustive", False)),
+        explanation=P["level_text"],
     )
     write_evidence(prop, tier, seed, P["level"], cov, P.get("assumptions", []), wall, 1 if violation else 0)
     print("%s %s: theorems %d/%d, ops %d (model %d, spec %d), direct oracle checks %d, model mismatches %d, oracle failures %d (known %d), %.1fs"
